@@ -389,7 +389,11 @@ def tasks(tier, seed):
   for a, b in pairs:
     if a is None or b is None: continue
     forky = a in FORKY or b in FORKY
-    T.append(("h_chain", {"first": a, "second": b, "K": 3 if (not big or forky) else 5, "S": 2 if not big else 3}))
+    # two data-dependent stages in a row multiply their case splits (unwrap|unwrap lost 32 paths to the 60 s per-path
+    # watchdog in a thorough run on a loaded machine): two outputs are enough to see a read-ahead there
+    both = a in FORKY and b in FORKY
+    T.append(("h_chain", {"first": a, "second": b, "K": 2 if both else (3 if (not big or forky) else 5), "S": 2 if not big else 3},
+              {"path_s": 300} if (big and forky) else {}))
   for meth in ("take", "peek"):
     T.append(("h_peek_take", {"meth": meth, "K": K}))
   for stage in ("filter", "cascade", "karplus"):
